@@ -236,6 +236,7 @@ partial def runBlocks (s : App) (set : CSet) (halted : Bool) : P Unit := do
         out s!"PRE {if pre then 1 else 0}"
         out s!"QUIET {if App.quietBlockB s set b then 1 else 0}"
         out s!"QUIET2 {if App.quietBlock2B s set b then 1 else 0}"
+        out s!"QUIET3 {if App.quietBlock3B s set b then 1 else 0}"
         out "STEP 0"
         out (match hk with | .panic => "HALT panic" | .error => "HALT error")
         runBlocks s set true
@@ -253,6 +254,7 @@ partial def runBlocks (s : App) (set : CSet) (halted : Bool) : P Unit := do
         out s!"PRE {if pre then 1 else 0}"
         out s!"QUIET {if App.quietBlockB s set b then 1 else 0}"
         out s!"QUIET2 {if App.quietBlock2B s set b then 1 else 0}"
+        out s!"QUIET3 {if App.quietBlock3B s set b then 1 else 0}"
         match Comet.applyChangeSet set bo.updates with
         | .error ce =>
           out s!"STEP 0"
@@ -422,7 +424,7 @@ partial def certBlocks (name : String) (i : Nat) (s : App) (set : CSet) (acc : L
       pure (acc, s!"RunEnd.halted {hs}", i - 1, i)
     | .ok (bo, s') =>
       let acc := acc ++ [s!"def o{i} : BlockOut := {lOut bo}", s!"def s{i} : App :=\n  {lApp s'}",
-        s!"theorem step{i} : App.block genEnv s{i-1} b{i} = .ok (o{i}, s{i}) := by decide"]
+        s!"set_option maxHeartbeats 4000000 in\ntheorem step{i} : App.block genEnv s{i-1} b{i} = .ok (o{i}, s{i}) := by decide"]
       match Comet.applyChangeSet set bo.updates with
       | .error ce =>
         let acc := acc ++ [s!"theorem comet{i} : Comet.applyChangeSet c{i-1} o{i}.updates = .error {lCometErr ce} := by decide"]
